@@ -2970,7 +2970,9 @@ class SQLiteDialect(default.DefaultDialect):
         #   CREATE INDEX i ON t (col || ') where') WHERE col <> ''
         # but as this function does not support expression-based indexes
         # this case does not occur.
-        partial_pred_re = re.compile(r"\)\s+where\s+(.+)", re.IGNORECASE)
+        partial_pred_re = re.compile(
+            r"\)\s+where\s+(.+)", re.IGNORECASE | re.DOTALL
+        )
 
         if schema:
             schema_expr = "%s." % self.identifier_preparer.quote_identifier(
